@@ -108,6 +108,31 @@ def strategy(tier):
     return _case()
 
 
+def sweeps(tier):
+    """Long-lived connections: some hundred requests on one connection of every front-end (one per read and pipelined)."""
+    n = 600 if tier == 'thorough' else 250
+    cases = []
+    for fe in frontends.ALL:
+        for framing in (('tcp', 'rtu') if fe != 'sync_serial' else ('rtu', 'ascii')):
+            reqs = []
+            for i in range(n):
+                fc = (3, 6, 1, 16, 4, 5)[i % 6]
+                if fc in (1, 3, 4):
+                    pdu = specpdu.encode('req:%d' % fc, {'address': i % 39, 'quantity': 1})
+                elif fc == 6:
+                    pdu = specpdu.encode('req:6', {'address': i % 40, 'value': (i * 263) & 0xFFFF})
+                elif fc == 5:
+                    pdu = specpdu.encode('req:5', {'address': i % 40, 'value': 0xFF00 if i % 4 else 0})
+                else:
+                    pdu = specpdu.encode('req:16', {'address': i % 38, 'registers': [i & 0xFFFF, 7]})
+                reqs.append({'uid': 1, 'tid': (65400 + i) & 0xFFFF, 'pdu': pdu.hex()})
+            for k in ((1,) if fe in frontends.DATAGRAM else (1, 3)):
+                groups = [k] * (n // k) + ([n % k] if n % k else [])
+                cases.append({'frontend': fe, 'framing': framing, 'single': False, 'hosted': [1, 2], 'ignore_missing_slaves': False,
+                              'broadcast_enable': False, 'requests': reqs, 'groups': groups})
+    return [('long-lived-connection-%d-requests' % n, cases, False)]
+
+
 def make_context(single, hosted, layout=SMALL_LAYOUT, slave_class=None):
     from pymodbus.datastore import ModbusServerContext
     if single:
